@@ -570,8 +570,6 @@ val is_ascii : byte -> bool
 
 val is_vchar : byte -> bool
 
-val is_ascii_ws : byte -> bool
-
 val is_ows : byte -> bool
 
 val to_lower : byte -> byte
